@@ -6,7 +6,7 @@
 set -u
 id="$1"; n="$2"; shift 2
 wt=/tmp/wt/$id
-seed=$wt/SEED/$n
+seed=$wt/${SEEDDIR:-SEED}/$n
 cd "$wt" || exit 2
 git checkout -q -- . ; rm -f tests/seed_demo_*.rs
 demo=$(ls $seed/demo*.rs 2>/dev/null | head -1)
